@@ -11,7 +11,7 @@ Not decided: re-encode equivalence (round-trip equality over all inputs).
 import re
 
 from facts import short_name
-from kinds import (k7_panics, result_blocks, comparisons, k1_constructors, panic_sites,
+from kinds import (rel, k7_panics, result_blocks, comparisons, k1_constructors, panic_sites,
                    k2_site_guarded, bool_payload_edges)
 
 CRATES = ["astria_core.lib", "astria_merkle.lib", "astria_core_crypto.lib",
@@ -99,7 +99,7 @@ def merkle_invariants(prog, rep=None, rule="W1"):
     # ---- I3
     if APL in prog.by_owner:
         b = prog.main_body(APL)
-        gt = [c for c in comparisons(b) if c.op == "Gt" and c.a == "tree_size"]
+        gt = rel(b, "Gt", r"^tree_size$", r".")
         isin = [c for c in b.calls if c.is_(M + "is_leaf_index_in_tree")]
         be = bool_payload_edges(b, isin[0]) if isin else None
         arith = [c for c in b.calls if c.is_(M + "complete_root", M + "complete_parent", L2T)]
